@@ -293,3 +293,134 @@ func (r *R) whoMayCall(rule string, target *ssa.Function, allow []string) {
 		}
 	}
 }
+
+// pairedLoopUpdate: phis named a and b are loop-carried variables of the same loop; on every acyclic path
+// through one iteration, if a's value changes then b's value changes too (the two cursors move together).
+func (r *R) pairedLoopUpdate(rule string, fn *ssa.Function, a, b, why string) {
+	construct := fmt.Sprintf("%s: loop updates %s ⇒ updates %s", ssax.FuncName(fn), a, b)
+	var pa, pb *ssa.Phi
+	for _, blk := range fn.Blocks {
+		for _, in := range blk.Instrs {
+			if p, ok := in.(*ssa.Phi); ok {
+				if p.Comment == a && pa == nil {
+					pa = p
+				}
+				if p.Comment == b && pb == nil {
+					pb = p
+				}
+			}
+		}
+	}
+	if pa == nil || pb == nil || pa.Block() != pb.Block() {
+		r.Undecide(rule, construct, r.fpos(fn), "loop-carried variables not found in one loop header")
+		return
+	}
+	h := pa.Block()
+	// blocks of the loop: those from which h is reachable and that h dominates
+	inLoop := map[*ssa.BasicBlock]bool{}
+	var mark func(b *ssa.BasicBlock)
+	mark = func(b *ssa.BasicBlock) {
+		if inLoop[b] || !h.Dominates(b) {
+			return
+		}
+		inLoop[b] = true
+		for _, p := range b.Preds {
+			mark(p)
+		}
+	}
+	for _, p := range h.Preds {
+		if h.Dominates(p) {
+			mark(p)
+		}
+	}
+	inLoop[h] = true
+	resolve := func(v ssa.Value, path []*ssa.BasicBlock) ssa.Value {
+		for depth := 0; depth < 32; depth++ {
+			p, ok := v.(*ssa.Phi)
+			if !ok || p == pa || p == pb {
+				return v
+			}
+			// position of p's block on the path and its predecessor there
+			idx := -1
+			for i := len(path) - 1; i >= 1; i-- {
+				if path[i] == p.Block() {
+					idx = i
+					break
+				}
+			}
+			if idx < 1 {
+				return v
+			}
+			pred := path[idx-1]
+			found := false
+			for j, q := range p.Block().Preds {
+				if q == pred {
+					v = p.Edges[j]
+					found = true
+					break
+				}
+			}
+			if !found {
+				return v
+			}
+		}
+		return v
+	}
+	npaths, bad := 0, ""
+	var walk func(path []*ssa.BasicBlock)
+	walk = func(path []*ssa.BasicBlock) {
+		if npaths > 20000 || bad != "" {
+			return
+		}
+		cur := path[len(path)-1]
+		for _, in := range cur.Instrs {
+			if ssax.IsNoReturn(in) {
+				return
+			}
+		}
+		for _, s := range cur.Succs {
+			if s == h {
+				npaths++
+				full := append(append([]*ssa.BasicBlock(nil), path...), h)
+				var ea, eb ssa.Value
+				for j, q := range h.Preds {
+					if q == cur {
+						ea, eb = pa.Edges[j], pb.Edges[j]
+					}
+				}
+				va, vb := resolve(ea, full), resolve(eb, full)
+				if va != ssa.Value(pa) && vb == ssa.Value(pb) {
+					var idx []int
+					for _, bb := range full {
+						idx = append(idx, bb.Index)
+					}
+					bad = fmt.Sprintf("on the iteration path %s, %s is reassigned but %s keeps its previous value", blocksStr(idx), a, b)
+				}
+				continue
+			}
+			if !inLoop[s] {
+				continue
+			}
+			onPath := false
+			for _, q := range path {
+				if q == s {
+					onPath = true
+				}
+			}
+			if onPath {
+				continue
+			}
+			walk(append(path, s))
+		}
+	}
+	walk([]*ssa.BasicBlock{h})
+	r.Stat("loop_iteration_paths", npaths)
+	switch {
+	case bad != "":
+		r.Violate(rule, construct, r.pos(pa), bad+": "+why)
+	case npaths == 0:
+		r.Undecide(rule, construct, r.fpos(fn), "no iteration path found")
+	default:
+		r.Hold(rule, construct, r.pos(pa), fmt.Sprintf("%d iteration paths enumerated", npaths))
+	}
+}
